@@ -164,7 +164,7 @@ def delay_sets(cp, full):
 H_TRIPLES = [(4, 1, 2), (8, 1, 2), (8, 1, 4), (4, 1, 4), (8, 3, 6), (6, 3, 2), (6, 0, 4), (16, 1, 2)]
 H_ATTRS = ([("fft_size", v) for v in (4, 6, 8, 16)] + [("cp_size", v) for v in (0, 1, 3)] +
            [("num_used_subcarriers", v) for v in (2, 4, 6)])
-H_INVALID = (8, 9, 4)
+H_INVALID = ((8, 9, 4), (16, 0, 5))     # invalid cp; valid fft/cp with an odd used count
 H_READS = ("idx", "mod", "demod", "tx")
 H_CH_DELAYS = (0, 1)
 H_CH_POWERS = (0.0, -3.0)
@@ -658,7 +658,7 @@ def h_model(hist):
 
 def h_enabled(triple):
     evs = [("set",) + t for t in H_TRIPLES if t != triple]
-    evs.append(("set",) + H_INVALID)
+    evs.extend(("set",) + t for t in H_INVALID)
     for name, v in H_ATTRS:
         i = ("fft_size", "cp_size", "num_used_subcarriers").index(name)
         t = tuple(v if j == i else triple[j] for j in range(3))
